@@ -44,7 +44,8 @@ QUERIES_RULE = ("queries: every string over a small alphabet (lengths 0..3 quick
                 "functions and all NULL/zero/over-limit combinations")
 
 
-EXTRA_HARNESSES = {"C01": ["tok", "fmt"], "C02": ["tok", "fmt"], "C03": ["fmt"], "C04": ["fmt"], "C05": ["fmt"], "C08": ["fmt"]}
+EXTRA_HARNESSES = {"C01": ["tok", "fmt", "misc"], "C02": ["tok", "fmt", "misc"], "C03": ["fmt", "misc"], "C04": ["fmt", "misc"], "C05": ["fmt", "misc"],
+                   "C06": ["misc"], "C08": ["fmt", "misc"]}
 
 
 def _engine_check(prop, cfgs, level_text, assumptions, modes=(0,), queries=False):
@@ -57,7 +58,7 @@ def _engine_check(prop, cfgs, level_text, assumptions, modes=(0,), queries=False
             jobs += harness_jobs("queries", prop, tier, ["plain"])
             hs.append("queries")
         for h in EXTRA_HARNESSES.get(prop, []):
-            jobs += harness_jobs(h, prop, tier, ["plain", "noslack"] if (h == "fmt" and "noslack" in cfgs) else ["plain"], nw=4)
+            jobs += harness_jobs(h, prop, tier, ["plain", "noslack"] if (h in ("fmt", "misc") and "noslack" in cfgs) else ["plain"], nw=1 if h == "misc" else 4)
             hs.append(h)
         run_workers(jobs, res)
         res.evaluations = res.counters.get("calls", 0)
@@ -172,7 +173,7 @@ def _c12(tier):
     res = Results("C12")
     # footprint monitor: every engine-style harness linked against the shared (-z now) build
     jobs = []
-    for h, nw in (("engine", 8), ("queries", 4), ("tok", 2), ("sortsearch", 2)):
+    for h, nw in (("engine", 8), ("queries", 4), ("tok", 2), ("sortsearch", 2), ("fmt", 4), ("misc", 1)):
         jobs += harness_jobs(h, "C12", tier, ["shared"], nw=nw)
     run_workers(jobs, res)
     fp_checks = res.counters.get("footprint_checks", 0)
